@@ -645,6 +645,100 @@ DisjointContract(ev, M) ==
          \A a, b \in 1..Len(S) : a < b => SeqRange(S[a]) \cap SeqRange(S[b]) = {},
          {<<a, b>> \in (1..Len(S)) \X (1..Len(S)) : a < b /\ SeqRange(S[a]) \cap SeqRange(S[b]) # {}})
 
+(* -- composite integral-amplitude intermediates (C12) --------------------- *)
+(* What each registered name stands for: the contraction table of adcc      *)
+(* (Intermediates.t2eri: 'ijbc,kabc->ijka', 'ilab,lkjb->ijka',              *)
+(* 'klab,ijkl->ijab', 'jkac,kbic->ijab', 'ijcd,abcd->ijab',                 *)
+(* 'jkbc,jkia->iabc', 'ijbd,jcad->iabc'; t2sq: 'ikac,jkbc->iajb') and the   *)
+(* pia / pib combinations of libadc, transcribed here independently of the *)
+(* library's definitions.  x: the orbitals on the axes of the composite,   *)
+(* T(i,j,a,b) = t^{ab}_{ij}(1) and V(p,q,r,s) = <pq||rs> are read from the *)
+(* model (the amplitude from the RSPT oracle).                             *)
+OccOrbs(M) == 1..NOcc(M)
+VirtOrbs(M) == (NOcc(M) + 1)..NOrb(M)
+Sum2(S1, S2, F(_, _)) ==
+  FoldSet(LAMBDA p, acc : FoldSet(LAMBDA q, a2 : FAdd(a2, F(p, q)), acc, S2), 0, S1)
+
+RECURSIVE CompositeVal(_, _, _, _)
+CompositeVal(name, x, a, M) ==
+  LET T(i, j, c, d) == TensorAt("M", a.t2, <<c, d>>, <<i, j>>, M)
+      V(p, q, r, s) == TensorAt("A", a.V, <<p, q>>, <<r, s>>, M)
+      O == OccOrbs(M)
+      U == VirtOrbs(M)
+      half == Pref(1, 2, 0, 0)
+  IN CASE name = "t2eri_1" ->        \* ijka <- ijbc, kabc
+            Sum2(U, U, LAMBDA b, c : FMul(T(x[1], x[2], b, c), V(x[3], x[4], b, c)))
+       [] name = "t2eri_2" ->        \* ijka <- ilab, lkjb
+            Sum2(O, U, LAMBDA l, b : FMul(T(x[1], l, x[4], b), V(l, x[3], x[2], b)))
+       [] name = "t2eri_3" ->        \* ijab <- klab, ijkl
+            Sum2(O, O, LAMBDA k, l : FMul(T(k, l, x[3], x[4]), V(x[1], x[2], k, l)))
+       [] name = "t2eri_4" ->        \* ijab <- jkac, kbic
+            Sum2(O, U, LAMBDA k, c : FMul(T(x[2], k, x[3], c), V(k, x[4], x[1], c)))
+       [] name = "t2eri_5" ->        \* ijab <- ijcd, abcd
+            Sum2(U, U, LAMBDA c, d : FMul(T(x[1], x[2], c, d), V(x[3], x[4], c, d)))
+       [] name = "t2eri_6" ->        \* iabc <- jkbc, jkia
+            Sum2(O, O, LAMBDA j, k : FMul(T(j, k, x[3], x[4]), V(j, k, x[1], x[2])))
+       [] name = "t2eri_7" ->        \* iabc <- ijbd, jcad
+            Sum2(O, U, LAMBDA j, d : FMul(T(x[1], j, x[3], d), V(j, x[4], x[2], d)))
+       [] name = "t2eri_A" ->        \* pia_ijka = 1/2 pi1_ijka + pi2_ijka - pi2_jika
+            FSub(FAdd(FMul(half, CompositeVal("t2eri_1", x, a, M)),
+                      CompositeVal("t2eri_2", x, a, M)),
+                 CompositeVal("t2eri_2", <<x[2], x[1], x[3], x[4]>>, a, M))
+       [] name = "t2eri_B" ->        \* pib_iabc = -1/2 pi6_iabc + pi7_iabc - pi7_iacb
+            FSub(FSub(CompositeVal("t2eri_7", x, a, M),
+                      FMul(half, CompositeVal("t2eri_6", x, a, M))),
+                 CompositeVal("t2eri_7", <<x[1], x[2], x[4], x[3]>>, a, M))
+       [] name = "t2sq" ->           \* iajb <- ikac, jkbc
+            Sum2(O, U, LAMBDA k, c : FMul(T(x[1], k, x[2], c), T(x[3], k, x[4], c)))
+       [] OTHER -> Assert(FALSE, <<"unknown composite", name>>)
+
+(* the spaces of the axes of a composite *)
+CompositeSpaces(name) ==
+  CASE name \in {"t2eri_1", "t2eri_2", "t2eri_A"} -> <<"o", "o", "o", "v">>
+    [] name \in {"t2eri_3", "t2eri_4", "t2eri_5"} -> <<"o", "o", "v", "v">>
+    [] name \in {"t2eri_6", "t2eri_7", "t2eri_B"} -> <<"o", "v", "v", "v">>
+    [] OTHER -> <<"o", "v", "o", "v">>
+
+(* A once expanded composite (pia, pib) refers to the tensors of lower     *)
+(* composites: ev.a.sub = << [nid, name, kc, nu], ... >> lists them; they   *)
+(* take the value of the contraction their name states (table keys as in   *)
+(* TabKey: kind code kc, nu upper indices).                                 *)
+CompositeTable(d, a, M) ==
+  LET sp == CompositeSpaces(d.name)
+      rng(k) == IF sp[k] = "o" THEN OccOrbs(M) ELSE VirtOrbs(M)
+      tups == {x \in [1..4 -> 1..NOrb(M)] : \A k \in 1..4 : x[k] \in rng(k)}
+  IN TLCEval([key \in {<<d.kc, d.nu>> \o x : x \in tups} |->
+               CompositeVal(d.name, SubSeq(key, 3, 6), a, M)])
+
+WithComposites(a, M) ==
+  IF ~("sub" \in DOMAIN a) \/ Len(a.sub) = 0 THEN M
+  ELSE
+    LET top == Max({Len(M.tabs)} \cup {a.sub[j].nid : j \in 1..Len(a.sub)})
+    IN [M EXCEPT !.tabs = TLCEval([n \in 1..top |->
+          IF \E j \in 1..Len(a.sub) : a.sub[j].nid = n
+          THEN CompositeTable(a.sub[CHOOSE j \in 1..Len(a.sub) : a.sub[j].nid = n], a, M)
+          ELSE IF n <= Len(M.tabs) THEN M.tabs[n] ELSE <<>>])]
+
+(* ev.a = [name, t2, V, axes, sub]: axes = the target index ids in the order *)
+(* of the composite's axes; ev.post = what expand_itmd returned.            *)
+CompositeContract(ev, M0) ==
+  LET tg == SeqRange(ev.tgt)
+      M == WithComposites(ev.a, M0) IN
+  IF ~ExprOrdOk(ev.post, tg)
+  THEN << <<"ord", "loop order does not match the non-target index set">> >>
+  ELSE IF SeqRange(ev.a.axes) # tg \/ Len(ev.a.axes) # 4
+  THEN << <<"axes", "the axes are not the four target indices">> >>
+  ELSE
+    LET px == PrepExpr(ev.post)
+        want(sig) == CompositeVal(ev.a.name, [k \in 1..4 |-> sig[ev.a.axes[k]]], ev.a, M)
+        bad == {sig \in Assignments(ev.tgt, ev.idx, M) :
+                  SliceOk(ev, sig) /\ ValP(px, ev.idx, sig, M) # want(sig)}
+    IN IF bad = {} THEN <<>>
+       ELSE LET sig == CHOOSE s \in bad : TRUE IN
+            << <<"val", [n |-> Cardinality(bad), at |-> sig,
+                        lhs |-> want(sig),
+                        rhs |-> ValP(px, ev.idx, sig, M)]>> >>
+
 (* -- the contract per operation ------------------------------------------ *)
 Contract(ev, M) ==
   CASE ev.op = "valpres" -> ValEq(ev, M, ev.pre, ev.post)
@@ -668,5 +762,6 @@ Contract(ev, M) ==
     [] ev.op = "registry" -> RegistryContract(ev, M)
     [] ev.op = "assume" -> AssumeContract(ev, M)
     [] ev.op = "wicks_rules" -> WicksRulesContract(ev, M)
+    [] ev.op = "composite" -> CompositeContract(ev, M)
     [] OTHER -> << <<"unknown-op", ev.op>> >>
 =============================================================================
